@@ -188,7 +188,13 @@ pub fn tracker_body(step: &TrackerStep, plan: &Plan) -> (TrackerOutcome, String)
                 list.push(malformed_entry(k));
                 k += 1;
             }
-            let body = B::Dict(vec![(b"interval".to_vec(), B::Int(1800)), (b"peers".to_vec(), B::List(list))]).encode();
+            // a marker among the names asks for the optional BEP3 key "warning message" (the reply
+            // is processed normally all the same)
+            let mut d = vec![(b"interval".to_vec(), B::Int(1800)), (b"peers".to_vec(), B::List(list))];
+            if wrong_id_for.iter().any(|n| n == "#warning") {
+                d.push((b"warning message".to_vec(), B::s("tracker is moving, update your announce URL")));
+            }
+            let body = B::Dict(d).encode();
             (TrackerOutcome::Http(200, body), format!("Good({} peers, {} malformed)", peers.len(), malformed))
         }
     }
